@@ -64,6 +64,7 @@ Theorem signed_render_sound : forall signer date msgid rb sb m k,
   s_panic r = false /\ s_n r = length (s_out r).
 Proof.
   intros signer date msgid rb sb m k [Ha Hf]. unfold write_to_signed.
+  destruct (err (prerender (resolve date msgid rb m))); [cbn; auto|].
   destruct (sign_input (resolve date msgid rb m)) as [inp|]; cbn [s_panic s_n s_out]; [|auto].
   destruct (write_resolved_signed_spec (resolve date msgid rb m) sb (signer inp) (mw_init k) (Inv_init k Ha Hf)) as (HI & _).
   split; apply HI.
@@ -74,6 +75,7 @@ Theorem signed_render_failure_reported : forall signer date msgid rb sb m k,
   s_err (write_to_signed signer date msgid rb sb m k) = true.
 Proof.
   intros signer date msgid rb sb m k [Ha Hf] Hp. unfold write_to_signed.
+  destruct (err (prerender (resolve date msgid rb m))); [reflexivity|].
   destruct (sign_input (resolve date msgid rb m)) as [inp|]; cbn [s_err]; [|reflexivity].
   destruct (write_resolved_signed_spec (resolve date msgid rb m) sb (signer inp) (mw_init k) (Inv_init k Ha Hf)) as (_ & _ & H).
   apply H. now rewrite resolve_failing.
@@ -84,3 +86,35 @@ Lemma gen_smime_wrapper :
   Gen.mime_smime_signed = bs "signed; protocol=""application/pkcs7-signature""; micalg=sha-256" /\
   Gen.smime_sig_type = bs "application/pkcs7-signature; name=""smime.p7s""".
 Proof. split; reflexivity. Qed.
+
+(* the pre-render reports a failing producer (any shape, enclosed form) *)
+Lemma prerender_failure : forall z, rmsg_has_failing_producer z = true -> err (prerender z) = true.
+Proof.
+  intros z H. unfold prerender, write_resolved_gen.
+  destruct (write_top_headers_spec z (mw_init unlimited) (Inv_init unlimited eq_refl eq_refl)) as (HI & _).
+  destruct (write_entity_spec true z _ HI) as (_ & _ & Hp). now apply Hp.
+Qed.
+
+(* signMessage fails when the message cannot be rendered: WriteTo writes nothing, returns (0, err) — on
+   every destination *)
+Theorem failing_producer_signed : forall signer date msgid rb sb m k,
+  msg_has_failing_producer m = true ->
+  let r := write_to_signed signer date msgid rb sb m k in
+  s_err r = true /\ s_n r = 0 /\ s_out r = [] /\ s_input r = None /\ s_panic r = false.
+Proof.
+  intros signer date msgid rb sb m k Hp. cbv zeta. unfold write_to_signed.
+  rewrite prerender_failure by (now rewrite resolve_failing). cbn. auto.
+Qed.
+
+(* before the repair the pre-render's error was ignored: the static-producer model then wrote the
+   multipart/signed message up to the failing producer (with an error from the final render); with a
+   producer that fails on its first call only — outside this model, exercised by the harness variant
+   "flaky" — the real code signed the truncated pre-render, emitted the complete part and returned nil *)
+Theorem prerender_error_before_fix_refuted : exists m,
+  msg_has_failing_producer m = true /\
+  let r := write_to_signed_before_fix (fun _ => bs "SIG") (bs "d") (bs "i") [] (bs "SB") m unlimited in
+  s_input r <> None /\ s_out r <> [] /\ Nat.ltb 0 (s_n r) = true.
+Proof.
+  exists (mkmsg (bs "UTF-8") 113 [] [] None [] [mkpart (bs "text/plain") [] EncQP [] (mkprod [bs "Hello"] true)] [] [] [] [] []).
+  vm_compute. repeat split; discriminate.
+Qed.
